@@ -346,9 +346,17 @@ def execute(sim, scn):
                 if reg["pos"] <= ref:
                     owner = ri
             if owner is not None and rd is None:
-                # an end-announcing message (unsuccessful / last): belongs to the registration alive when it was triggered
-                alive = [ri for ri, reg in enumerate(regs) if reg["pos"] <= ref and reg.get("cancel_pos", 1 << 60) >= ref - 200]
-                owner = alive[-1] if alive else owner
+                # an end-announcing message (unsuccessful / last): it belongs to the registration that was alive when
+                # it was TRIGGERED -- it may be transmitted much later when the observer's NSTART slot was busy
+                trig = [t for (t, kind, who) in global_ends if kind in ("error_notification", "last_notification")
+                        and t <= e["t"] + TOL]
+                if trig:
+                    tg = trig[-1]
+                    alive = [ri for ri, reg in enumerate(regs) if reg["t"] <= tg + TOL and
+                             (not reg["cancelled"] or reg["cancelled"][0] >= tg - TOL)]
+                    owner = alive[-1] if alive else None
+                    if owner is None:
+                        continue
             if owner is None:
                 if rc.opt1(e["msg"], rc.OBSERVE) is not None:
                     sim.violation("C08/notification-without-registration", {"observer": oid, "t": e["t"],
